@@ -4,7 +4,7 @@
     order; the model uses the order of discovery).  Stdlib lists. *)
 From Coq Require Import List NArith ZArith Bool Arith Lia Permutation Sorted.
 From SK Require Import lib.Tok lib.LGraph lib.StrJoin model.C11_Model model.C11_Orbit model.C11_Order
-     proof.C11_Aut proof.C11_OrbitProof.
+     proof.C11_Aut proof.C11_Main proof.C11_Comp proof.C11_OrbitProof.
 Import ListNotations.
 
 (** ---------- stable insertion sort ---------- *)
@@ -178,3 +178,120 @@ Qed.
 Lemma run_aut_full_eq (g : graph) :
   run_aut_full g = L [ run_aut g; tbool (wfb g); tlist t_maps (aut_lists g); run_aut_oa g; run_order g ].
 Proof. unfold run_aut_full, run_aut, aut_lists, run_aut_oa, run_order. cbv zeta. rewrite analyze_comps. reflexivity. Qed.
+
+(** ---------- repr_N is the decimal numeral ---------- *)
+Definition digit_step (a d : N) : N := (10 * a + (d - 48))%N.
+Definition numeral_value (ds : list N) : N := fold_left digit_step ds 0%N.
+
+Lemma pos_size_gt p : (N.pos p < 2 ^ N.of_nat (Pos.size_nat p))%N.
+Proof.
+  induction p as [p IH|p IH|]; simpl Pos.size_nat.
+  - rewrite Nat2N.inj_succ, N.pow_succ_r'. lia.
+  - rewrite Nat2N.inj_succ, N.pow_succ_r'. lia.
+  - simpl. lia.
+Qed.
+
+Lemma size_nat_gt n : (n < 2 ^ N.of_nat (N.size_nat n))%N.
+Proof. destruct n as [|p]; [simpl; lia | apply pos_size_gt]. Qed.
+
+Lemma digits_S f n acc :
+  digits (S f) n acc = if (n / 10 =? 0)%N then (48 + n mod 10)%N :: acc else digits f (n / 10)%N ((48 + n mod 10)%N :: acc).
+Proof. reflexivity. Qed.
+
+Lemma digits_app f : forall n acc, digits f n acc = digits f n [] ++ acc.
+Proof.
+  induction f as [|f IH]; intros n acc; [reflexivity|]. rewrite !digits_S.
+  destruct (n / 10 =? 0)%N; [reflexivity|].
+  rewrite (IH (n / 10)%N ((48 + n mod 10)%N :: acc)), (IH (n / 10)%N [(48 + n mod 10)%N]), <- app_assoc. reflexivity.
+Qed.
+
+Lemma digits_spec f : forall n, (n < 2 ^ N.of_nat f)%N ->
+  numeral_value (digits (S f) n []) = n /\
+  Forall (fun d => 48 <= d <= 57)%N (digits (S f) n []) /\
+  digits (S f) n [] <> [] /\
+  (n <> 0%N -> hd 0%N (digits (S f) n []) <> 48%N).
+Proof.
+  induction f as [|f IH]; intros n Hn.
+  - simpl in Hn. assert (n = 0%N) by lia. subst n. cbn. repeat split; try lia; try discriminate.
+    constructor; [lia | constructor].
+  - rewrite (digits_S (S f) n []). destruct (N.eqb_spec (n / 10) 0) as [E|E].
+    + assert (Hlt : (n < 10)%N).
+      { destruct (N.lt_ge_cases n 10) as [H|H]; [exact H|]. exfalso.
+        assert (1 <= n / 10)%N by (apply N.div_le_lower_bound; lia). lia. }
+      assert (Hm : (n mod 10 = n)%N) by (apply N.mod_small; exact Hlt).
+      rewrite Hm. unfold numeral_value, digit_step. cbn [fold_left hd].
+      split; [lia|]. split; [constructor; [lia | constructor]|]. split; [discriminate|]. intros Hn0. lia.
+    + assert (Hq : (n / 10 < 2 ^ N.of_nat f)%N).
+      { apply N.div_lt_upper_bound; [lia|]. rewrite Nat2N.inj_succ, N.pow_succ_r' in Hn. lia. }
+      destruct (IH (n / 10)%N Hq) as (V & F & NE & HD).
+      rewrite (digits_app (S f) (n / 10)%N [(48 + n mod 10)%N]).
+      assert (Hmod : (n mod 10 < 10)%N) by (apply N.mod_lt; lia).
+      split; [|split; [|split]].
+      * unfold numeral_value in *. rewrite fold_left_app, V. cbn [fold_left]. unfold digit_step.
+        assert (Hdm : (n = 10 * (n / 10) + n mod 10)%N) by (apply N.div_mod; discriminate).
+        rewrite Hdm at 3. generalize (n / 10)%N (n mod 10)%N. intros q r. lia.
+      * apply Forall_app. split; [exact F | constructor; [|constructor]]. revert Hmod. generalize (n mod 10)%N. intros r Hr. lia.
+      * intros H. apply app_eq_nil in H. destruct H as [_ H]. discriminate.
+      * intros _. destruct (digits (S f) (n / 10) []) as [|d r] eqn:Ed; [contradiction|]. cbn [app hd] in *.
+        apply HD. exact E.
+Qed.
+
+Theorem repr_N_spec (n : N) :
+  numeral_value (repr_N n) = n /\ Forall (fun d => 48 <= d <= 57)%N (repr_N n) /\ repr_N n <> [] /\
+  (n <> 0%N -> hd 0%N (repr_N n) <> 48%N) /\ ~ In 124%N (repr_N n).
+Proof.
+  unfold repr_N. destruct (digits_spec (N.size_nat n) n (size_nat_gt n)) as (V & F & NE & HD).
+  split; [exact V|]. split; [exact F|]. split; [exact NE|]. split; [exact HD|].
+  intros Hin. rewrite Forall_forall in F. specialize (F _ Hin). lia.
+Qed.
+
+Corollary repr_N_inj n m : repr_N n = repr_N m -> n = m.
+Proof.
+  intros E. destruct (repr_N_spec n) as (Vn & _). destruct (repr_N_spec m) as (Vm & _). rewrite <- Vn, <- Vm, E. reflexivity.
+Qed.
+
+(** ---------- the key determines the orbit (as a set): the order of the reported list is canonical ---------- *)
+Lemma okey_inj o o' : okey o = okey o' -> forall x, In x o <-> In x o'.
+Proof.
+  unfold okey. intros E. inversion E as [[El Ej]]. clear E.
+  set (L := sort_by str_leb (map repr_N (canonN o))) in *. set (L' := sort_by str_leb (map repr_N (canonN o'))) in *.
+  assert (P : Permutation L (map repr_N (canonN o))) by apply sort_by_perm.
+  assert (P' : Permutation L' (map repr_N (canonN o'))) by apply sort_by_perm.
+  assert (Hno : forall M l, Permutation M (map repr_N l) -> Forall (nosep 124%N) M).
+  { intros M l PM. apply Forall_forall. intros z Hz. apply (Permutation_in _ PM) in Hz.
+    apply in_map_iff in Hz. destruct Hz as (y & <- & _). exact (proj2 (proj2 (proj2 (proj2 (repr_N_spec y))))). }
+  assert (Hmem : forall a b, Permutation (map repr_N (canonN a)) (map repr_N (canonN b)) -> forall x, In x a -> In x b).
+  { intros a b PM x Hx. apply canonN_in. apply canonN_in in Hx.
+    assert (Hin : In (repr_N x) (map repr_N (canonN b))) by (apply (Permutation_in _ PM); apply in_map; exact Hx).
+    apply in_map_iff in Hin. destruct Hin as (y & Ey & Hy). apply repr_N_inj in Ey. subst y. exact Hy. }
+  destruct (canonN o) as [|a r] eqn:Eo.
+  - destruct (canonN o') as [|a' r'] eqn:Eo'; [|simpl in El; discriminate].
+    intros x. rewrite <- (canonN_in o x), <- (canonN_in o' x), Eo, Eo'. tauto.
+  - destruct (canonN o') as [|a' r'] eqn:Eo'; [simpl in El; discriminate|].
+    assert (EL : L = L').
+    { apply (@join_inj 124%N L L'); [exact (Hno L _ P) | exact (Hno L' _ P') | | | exact Ej].
+      - intros H. rewrite H in P. apply Permutation_nil in P. discriminate.
+      - intros H. rewrite H in P'. apply Permutation_nil in P'. discriminate. }
+    assert (PM : Permutation (map repr_N (canonN o)) (map repr_N (canonN o'))).
+    { rewrite Eo, Eo'. apply Permutation_trans with L; [apply Permutation_sym; exact P | rewrite EL; exact P']. }
+    intros x. split; [apply (Hmem o o' PM) | apply (Hmem o' o (Permutation_sym PM))].
+Qed.
+
+Lemma keys_nodup (O : list (list N)) :
+  NoDup O -> (forall o1 o2, In o1 O -> In o2 O -> (forall x, In x o1 <-> In x o2) -> o1 = o2) -> NoDup (map okey O).
+Proof.
+  intros Hnd Hext. apply (inj_in_NoDup_map okey O Hnd). intros a b Ha Hb E. apply Hext; [exact Ha | exact Hb | exact (okey_inj a b E)].
+Qed.
+
+Theorem reported_order_canonical (fn : nlab -> N) (fe : elab -> N) (g : graph) : LGraph.wf g ->
+  NoDup (map okey (a_orbits (analyze fn fe g))) /\
+  forall O', Permutation (a_orbits (analyze fn fe g)) O' -> sorted_orbits O' = sorted_orbits (a_orbits (analyze fn fe g)).
+Proof.
+  intros Hwf. destruct (orbits_partition_all fn fe g Hwf) as (_ & _ & P3 & P4 & _).
+  assert (Hk : NoDup (map okey (a_orbits (analyze fn fe g)))).
+  { apply keys_nodup; [exact P4|]. intros o1 o2 H1 H2 Hsame.
+    destruct o1 as [|x r].
+    - destruct o2 as [|y r']; [reflexivity|]. exfalso. apply (proj2 (Hsame y)). left. reflexivity.
+    - apply (P3 (x :: r) o2 x H1 H2); [left; reflexivity | apply Hsame; left; reflexivity]. }
+  split; [exact Hk|]. intros O' PO. exact (proj1 (proj2 (proj2 (proj2 (orbit_order (a_orbits (analyze fn fe g)) []))) ) O' PO Hk).
+Qed.
